@@ -128,3 +128,47 @@ def cache_dropped(ctx):
             # a path that still holds the cache must be one on which reuse was requested
             goal = z3.And(*[z3.Implies(p.cond(), reuse) for p in sel]) if sel else z3.BoolVal(True)
             ctx.ob("%s/%s-exits-drop-the-cache-unless-reuse-requested" % (stage, kind), "ensures", [], goal)
+
+
+# ---------------------------------------------------------------------------------------------
+# heat calculation from stored hydraulic results: exactly the two unknown columns are restored
+
+@unit("C12", "stored_hydraulics", functions=[PF + ":use_given_hydraulic_results"], engine="E2")
+def stored_hydraulics(ctx):
+    """use_given_hydraulic_results writes the stored solution vector into PINIT (first len(node_pit) entries) and MDOTINIT
+    (the rest), nothing else, and refuses to do so unless the hydraulic results are flagged as available"""
+    import z3
+    from pvc import kern as K, twin as T, val as V
+    from pvc.val import compare, B
+    ND_, BR_ = "pandapipes.idx_node", "pandapipes.idx_branch"
+    NCN_, NCB_ = K.const(ND_, "node_cols"), K.const(BR_, "branch_cols")
+    N_PINIT_, B_MDOT_ = K.const(ND_, "PINIT"), K.const(BR_, "MDOTINIT")
+    NN_, NB_, NS = z3.Int("NN"), z3.Int("NB"), z3.Int("NSOL")
+    for flag in (True, False):
+        def mk(_f=flag):
+            net = K.NetObj({"_pit": {"node": K.sym_pit("node_pit", NN_, NCN_), "branch": K.sym_pit("branch_pit", NB_, NCB_)},
+                            "user_pf_options": {"hyd_flag": _f}})
+            return [net, K.sym_arr("sol_vec", NS, "f")], {}
+        paths = T.run_paths(ctx, PF + ":use_given_hydraulic_results", mk)
+        if not flag:
+            ctx.decided("refuses-without-the-flag", "ensures", len(paths) >= 1 and all(p.exc is not None for p in paths),
+                        witness=str([str(p.exc) for p in paths]))
+            continue
+        ok = len(paths) == 1 and paths[0].exc is None
+        ctx.decided("restores/single-path", "cover", ok, witness=str([str(p.exc) for p in paths]))
+        if not ok:
+            continue
+        p = paths[0]
+        net = p.args[0][0]
+        npit, bpit = net.items["_pit"]["node"], net.items["_pit"]["branch"]
+        np0, bp0 = K.sym_pit("node_pit", NN_, NCN_), K.sym_pit("branch_pit", NB_, NCB_)
+        sol = K.sym_arr("sol_vec", NS, "f")
+        n, b, c = z3.Int("n!row"), z3.Int("b!row"), z3.Int("c!col")
+        base = [NN_ >= 1, NB_ >= 0, NS == NN_ + NB_] + list(p.facts)
+        ctx.ob("restores/pressures", "ensures", base + [n >= 0, n < NN_], K.eq_val(npit.f(n, N_PINIT_), sol.f(n)))
+        ctx.ob("restores/mass-flows", "ensures", base + [b >= 0, b < NB_], K.eq_val(bpit.f(b, B_MDOT_), sol.f(NN_ + b)))
+        ctx.ob("restores/frame-node-columns", "frame", base + [n >= 0, n < NN_, c >= 0, c < NCN_, c != N_PINIT_],
+               K.eq_val(npit.f(n, c), np0.f(n, c)))
+        ctx.ob("restores/frame-branch-columns", "frame", base + [b >= 0, b < NB_, c >= 0, c < NCB_, c != B_MDOT_],
+               K.eq_val(bpit.f(b, c), bp0.f(b, c)))
+        ctx.check_safety(paths, base, "restores/fn", kinds=("shape", "index"))
